@@ -434,6 +434,80 @@ static bool same_shape(const Message & t, const Message & p)
    return true;
 }
 
+// ---- what TemplatedFlatten(T) of p must describe, per Message.h ("Only fields whose counterparts are present in
+// (templateMsg) will be written ... If a field is present in (templateMsg) but not in (this Message), then the values from
+// (templateMsg) will be written") and MessageField::TemplatedFlatten ("the payload-field-values when possible, with
+// template-field's values used to pad out"): u has T's flattenable fields, in T's order and with T's item counts; item i
+// of a field comes from p when p has that field with the same type code and more than i items, else from T.
+static bool leaf_item_eq(const Message & a, const String & fn, uint32 ia, const Message & b, uint32 ib, uint32 tc, std::string & why)
+{
+   if (tc == B_STRING_TYPE)
+   {
+      const String * pa = NULL; const String * pb = NULL;
+      if (a.FindString(fn, ia, &pa).IsError() || b.FindString(fn, ib, &pb).IsError()) {why = "FindString failed"; return false;}
+      if ((pa->Length() != pb->Length())||(memcmp(pa->Cstr(), pb->Cstr(), pa->Length()) != 0)) {why = "string item differs"; return false;}
+   }
+   else if (Message::GetElementSize(tc) == 0)
+   {
+      FlatCountableRef fa, fb;
+      if (a.FindFlat(fn, ia, fa).IsError() || b.FindFlat(fn, ib, fb).IsError()) {why = "FindFlat failed"; return false;}
+      const ByteBuffer * ba = dynamic_cast<const ByteBuffer *>(fa());
+      const ByteBuffer * bb = dynamic_cast<const ByteBuffer *>(fb());
+      if ((ba == NULL)||(bb == NULL)) {why = "raw item is not a ByteBuffer"; return false;}
+      if ((ba->GetNumBytes() != bb->GetNumBytes())||((ba->GetNumBytes() > 0)&&(memcmp(ba->GetBuffer(), bb->GetBuffer(), ba->GetNumBytes()) != 0))) {why = "raw item bytes differ"; return false;}
+   }
+   else
+   {
+      const void * da = NULL; const void * db = NULL; uint32 sa = 0, sb = 0;
+      if (a.FindData(fn, tc, ia, &da, &sa).IsError() || b.FindData(fn, tc, ib, &db, &sb).IsError()) {why = "FindData failed"; return false;}
+      if ((sa != sb)||((sa > 0)&&(memcmp(da, db, sa) != 0))) {why = "item bytes differ"; return false;}
+   }
+   return true;
+}
+
+static bool same_as_merge(const Message & T, const Message & p, const Message & u, std::string & why)
+{
+   if (u.what != p.what) {why = "what-code is not the payload's"; return false;}
+   std::vector<String> tn, un;
+   for (MessageFieldNameIterator it = T.GetFieldNameIterator(); it.HasData(); it++) {uint32 tc = 0; (void) T.GetInfo(it.GetFieldName(), &tc); if (flattenable_type(tc)) tn.push_back(it.GetFieldName());}
+   for (MessageFieldNameIterator it = u.GetFieldNameIterator(); it.HasData(); it++) un.push_back(it.GetFieldName());
+   if (tn.size() != un.size()) {why = "number of fields is not the template's"; return false;}
+   for (size_t n=0; n<tn.size(); n++)
+   {
+      const String & fn = tn[n];
+      if ((fn.Length() != un[n].Length())||(memcmp(fn(), un[n](), fn.Length()) != 0)) {why = "field name/order is not the template's"; return false;}
+      uint32 tt = 0, ct = 0, tu = 0, cu = 0, tp = 0, cp = 0;
+      if (T.GetInfo(fn, &tt, &ct).IsError() || u.GetInfo(fn, &tu, &cu).IsError()) {why = "GetInfo failed"; return false;}
+      if (tt != tu) {why = "type code is not the template's"; return false;}
+      if (ct != cu) {why = "item count is not the template's"; return false;}
+      const bool have = p.GetInfo(fn, &tp, &cp).IsOK() && (tp == tt);
+      for (uint32 i=0; i<ct; i++)
+      {
+         const Message & src = (have && (i < cp)) ? p : T;
+         if (tt == B_MESSAGE_TYPE)
+         {
+            MessageRef st, ss, su;
+            if (T.FindMessage(fn, i, st).IsError() || src.FindMessage(fn, i, ss).IsError() || u.FindMessage(fn, i, su).IsError() || (st() == NULL) || (ss() == NULL) || (su() == NULL)) {why = "FindMessage failed"; return false;}
+            if (!same_as_merge(*st(), *ss(), *su(), why)) {why = "sub-Message: " + why; return false;}
+         }
+         else if (!leaf_item_eq(src, fn, i, u, i, tt, why)) {why = std::string((&src == &p) ? "payload" : "template") + " item lost: " + why; return false;}
+      }
+   }
+   return true;
+}
+
+// every field of every level holds at least one item (true of every Message the API builds)
+static bool no_empty_fields(const Message & m)
+{
+   for (MessageFieldNameIterator it = m.GetFieldNameIterator(); it.HasData(); it++)
+   {
+      uint32 tc = 0, c = 0;
+      if (m.GetInfo(it.GetFieldName(), &tc, &c).IsError() || (c == 0)) return false;
+      if (tc == B_MESSAGE_TYPE) for (uint32 i=0; i<c; i++) {MessageRef s; if (m.FindMessage(it.GetFieldName(), i, s).IsError() || (s() == NULL) || !no_empty_fields(*s())) return false;}
+   }
+   return true;
+}
+
 // deterministic byte mutation shared with ocaml/msg_driver.ml (stream "g": parsing bytes that Flatten did NOT produce)
 static uint32 g_lcg;
 static uint32 lcg_next() {g_lcg = (uint32)((((uint64) g_lcg) * 1103515245ULL + 12345ULL) & 0x7fffffffULL); return g_lcg >> 12;}
@@ -584,13 +658,16 @@ static void run_case(int k, const std::string & head, const std::string & body)
          }
          out << k << " TH " << (unsigned long long) T.TemplateHashCode64() << " " << (unsigned long long) m0.TemplateHashCode64() << "\n";
          if (same_shape(T, m0) && (T.TemplateHashCode64() != m0.TemplateHashCode64())) orc << k << " ORACLE FAIL templated: a Message and a template of the same shape have different TemplateHashCode64\n";
-         if (!same_shape(T, m0)) out << k << " TF skip\n";
-         else
+         const bool shape = same_shape(T, m0);
          {
+            // any template: the exact-size buffer makes ASan see a write past TemplatedFlattenedSize(); 0xEE marks bytes never written
             const uint32 ts = m0.TemplatedFlattenedSize(T);
-            std::vector<uint8> tb(ts ? ts : 1);
-            m0.TemplatedFlatten(T, DataFlattener(&tb[0], ts));     // aborts unless exactly ts bytes are written
-            out << k << " TF " << ts << " " << hex(&tb[0], ts) << "\n";
+            uint8 * raw = new uint8[ts ? ts : 1];
+            memset(raw, 0xEE, ts ? ts : 1);
+            m0.TemplatedFlatten(T, DataFlattener(raw, ts));     // aborts unless exactly ts bytes are written
+            std::vector<uint8> tb(raw, raw+ts);
+            delete [] raw;
+            out << k << " TF " << ts << " " << hex(tb.empty() ? (const uint8 *) "" : &tb[0], ts) << "\n";
             std::vector<uint8> exact(tb.begin(), tb.begin()+ts);
             Message u;
             DataUnflattener unf(exact.empty() ? (const uint8 *) "" : &exact[0], ts);
@@ -599,13 +676,17 @@ static void run_case(int k, const std::string & head, const std::string & body)
                const uint32 ufs = u.FlattenedSize(); std::vector<uint8> ub(ufs); u.FlattenToBytes(&ub[0], ufs);
                out << k << " TU ok " << desc(u) << " " << hex(&ub[0], ufs) << "\n";
                std::string why;
-               if (!same_content(m0, u, why)) orc << k << " ORACLE FAIL templated: the Message parsed back differs from the original: " << why << "\n";
-               if (u.CalculateChecksum() != chk) orc << k << " ORACLE FAIL templated: CalculateChecksum changed by the templated trip\n";
+               if (shape)
+               {
+                  if (!same_content(m0, u, why)) orc << k << " ORACLE FAIL templated: the Message parsed back differs from the original: " << why << "\n";
+                  if (u.CalculateChecksum() != chk) orc << k << " ORACLE FAIL templated: CalculateChecksum changed by the templated trip\n";
+               }
+               if (in_domain && no_empty_fields(T) && !same_as_merge(T, m0, u, why)) orc << k << " ORACLE FAIL templated: the Message parsed back is not the payload merged into the template: " << why << "\n";
             }
             else
             {
                out << k << " TU err\n";
-               orc << k << " ORACLE FAIL templated: TemplatedUnflatten rejects the bytes TemplatedFlatten produced\n";
+               if (in_domain && no_empty_fields(T)) orc << k << " ORACLE FAIL templated: TemplatedUnflatten rejects the bytes TemplatedFlatten produced\n";
             }
             if (tm_set)
             {
